@@ -207,8 +207,20 @@ def plan_c05(pid, rng, tier, maxn=None):
     return plan
 
 
+def plan_c15(pid, rng, tier):
+    """fault plans and healthy plans alike, always with a key (and mostly a label): every buffer is opened by the tap"""
+    p = plan_c05(pid, rng, tier, 6) if pid % 2 else plan_c04(pid, rng, tier)
+    p["key"] = "0123456789abcdef"
+    if pid % 3:
+        p["label"] = "blue"
+    p["proto"] = 1 if pid % 5 == 0 else 0          # protocol 1 = encryption version 0 (padded)
+    return p
+
+
 def make(prop, tier, seed, count, maxn=None):
     rng = random.Random("%s-%s-%d" % (prop, tier, seed))
+    if prop == "C15":
+        return [plan_c15(i + 1, rng, tier) for i in range(count)]
     if prop == "C05" and maxn:
         return [plan_c05(i + 1, rng, tier, maxn) for i in range(count)]
     f = {"C03": plan_c03, "C04": plan_c04, "C05": plan_c05}[prop]
